@@ -338,27 +338,35 @@ def classify(ex, k, rj, fresh):
 
 
 # ------------------------------------------------------------------------------------------------ run
+RICH = ["S1", "S2", "S3", "S4"]
+
+
 def constants(tier):
-    """mc: design check; gen: history export with handles; deep: longer histories without handles (the handle
-    dimension is what makes the view count grow); kd: histories that contain the parameter shadowing"""
+    """mc: design check.  gens: history exports - `life`: the full life-cycle alphabet (compile / parse / destroy / params /
+    functions / transform) over the state-heavy stylesheets; `deep`: longer histories over a reduced alphabet (one or two
+    compiled stylesheets, no parsed sources: the handle dimension is what makes the view count grow); `roles`: short
+    histories over every document of the pool.  kd: histories that contain the parameter shadowing."""
     if tier == "quick":
         mc = dict(hist=6, maxh=1, compile=["S2", "S3", "SX"], parse=["D1", "D2", "DX"], inline_ss=ALL_SS, inline_src=ALL_SRC, vals=["str", "num"])
-        gen = dict(mc, hist=4)
-        deep = dict(mc, hist=6, maxh=0, inline_ss=["S1", "S2", "S3", "S4", "SV"], inline_src=["D1", "D2"])
+        gens = [("life", dict(mc, hist=4, inline_ss=RICH + ["SX"])),
+                ("deep", dict(mc, hist=6, compile=["S2"], parse=[], inline_ss=RICH + ["SV"], inline_src=["D1", "D2"])),
+                ("roles", dict(mc, hist=3, maxh=0))]
         kd = dict(mc, hist=4, compile=["S3"], parse=["D1"], inline_ss=["S1", "S2", "S4"], inline_src=["D1"], vals=["str", "num", "obj"])
     else:
         mc = dict(hist=8, maxh=2, compile=["S2", "S3", "S4", "SX"], parse=["D1", "D2", "DX"], inline_ss=ALL_SS, inline_src=ALL_SRC, vals=["str", "num", "obj"])
-        gen = dict(mc, hist=6, maxh=1)
-        deep = dict(mc, hist=9, maxh=0, inline_src=["D1", "D2"])
+        gens = [("life", dict(mc, hist=5, maxh=1, inline_ss=RICH + ["SX", "SM"])),
+                ("life2", dict(mc, hist=5, maxh=2, compile=["S2", "S3"], parse=["D1", "D2"], inline_ss=["S2", "S3"], inline_src=["D1", "D2"], vals=["str", "num"])),
+                ("deep", dict(mc, hist=8, maxh=1, compile=["S2", "S3"], parse=[], inline_ss=RICH + ["SV", "SM"], inline_src=["D1", "D2"])),
+                ("roles", dict(mc, hist=4, maxh=0))]
         kd = dict(mc, hist=5, maxh=1, compile=["S3"], parse=["D1"], inline_ss=["S1", "S2", "S4"], inline_src=["D1"])
-    return mc, gen, deep, kd
+    return mc, gens, kd
 
 
 def gen_histories(wd, name, c, guard_p, timeout):
     cfg = os.path.join(wd, name + ".cfg")
     open(cfg, "w").write(cfg_text(c, guard_p, False, False))
     dump = os.path.join(wd, name)
-    r = vlib.tlc(MC, cfg, workers=min(4, vlib.NCPU), name="c06" + name, timeout=timeout, extra=["-dump", dump, "-noGenerateSpecTE"])
+    r = vlib.tlc(MC, cfg, workers=1, name="c06" + name, timeout=timeout, extra=["-dump", dump, "-noGenerateSpecTE"])
     if not r["ok"]:
         raise vlib.Infra("GEN failed: " + r["out"][-3000:])
     hs, classes = [], set()
@@ -373,35 +381,42 @@ def gen_histories(wd, name, c, guard_p, timeout):
 def run(res, tier, seed):
     quick = tier == "quick"
     wd = vlib.workdir("c06-%d" % os.getpid())
-    mcc, genc, deepc, kdc = constants(tier)
-    # ---- MC: the design (known deviations kept out, and shown real)
+    mcc, gens, kdc = constants(tier)
+    # ---- MC: the design (known deviations kept out, and shown real); concurrently
+    # ---- GEN: histories without parameter shadowing (several alphabets), and histories that contain it
     cfg = os.path.join(wd, "mc.cfg")
     open(cfg, "w").write(cfg_text(mcc, True, True, True))
-    r = vlib.tlc_mc(MC, cfg, name="c06mc", timeout=1500, extra=["-noGenerateSpecTE"])
-    res.add_mc(r, "MC_Transformer hist<=%d handles<=%d" % (mcc["hist"], mcc["maxh"]))
-    t0 = time.time(); vlib.log("c06: MC %.1fs" % r["wall"])
-    # ---- GEN: (A) histories without parameter shadowing, (B) histories that contain it
-    hsA, classes, rA = gen_histories(wd, "genA", genc, True, 1500)
-    hsC, classesC, rC = gen_histories(wd, "genC", deepc, True, 1500)
-    hsB, _, rB = gen_histories(wd, "genB", kdc, False, 600)
-    hsB = [h for h in hsB if has_shadow(h)]
-    classes |= classesC
+    t0 = time.time()
+    with ThreadPoolExecutor(max_workers=len(gens) + 2) as pool_:
+        fmc = pool_.submit(vlib.tlc_mc, MC, cfg, name="c06mc", timeout=1500, extra=["-noGenerateSpecTE"], workers=max(2, vlib.NCPU // 2))
+        fg = [(name, c, pool_.submit(gen_histories, wd, "gen_" + name, c, True, 1500)) for name, c in gens]
+        fkd = pool_.submit(gen_histories, wd, "gen_kd", kdc, False, 600)
+        r = fmc.result()
+        res.add_mc(r, "MC_Transformer hist<=%d handles<=%d" % (mcc["hist"], mcc["maxh"]))
+        classes, pools, res.notes["gen"] = set(), [], {}
+        for name, c, f in fg:
+            hs, cl, rg = f.result()
+            classes |= cl
+            pools.append(hs)
+            res.notes["gen"][name] = {"views": rg["distinct"], "histories": len(hs), "MaxHist": c["hist"], "MaxH": c["maxh"],
+                                      "stylesheets": len(set(c["inline_ss"]) | set(c["compile"])), "values": c["vals"]}
+        hsB = [h for h in fkd.result()[0] if has_shadow(h)]
+    res.notes["gen"]["param_shadow"] = {"histories": len(hsB)}
+    pools.append(hsB)
     missing = CLASSES - classes
     if missing:
         raise vlib.Infra("vacuity: the generated histories never reach outcome class(es) %s" % sorted(missing))
     res.notes["outcome_classes_generated"] = sorted(classes - {"none"})
-    res.notes["gen"] = {"views_A": rA["distinct"], "histories_A": len(hsA), "histories_C_no_handles": len(hsC),
-                        "histories_B_param_shadow": len(hsB)}
     hists, seen = [], set()
-    for h in hsA + hsC + hsB:
+    for h in [h for hs in pools for h in hs]:
         k = vlib.canon_hash(h)
         if k not in seen:
             seen.add(k); hists.append(h)
-    vlib.log("c06: GEN %.1fs (%d + %d + %d histories, %d distinct)" % (time.time() - t0, len(hsA), len(hsC), len(hsB), len(hists))); t0 = time.time()
+    vlib.log("c06: MC %.1fs + GEN, together %.1fs (%s histories, %d distinct)" % (r["wall"], time.time() - t0, " + ".join(str(len(x)) for x in pools), len(hists))); t0 = time.time()
     if not quick:
         rng = random.Random(seed)
-        hists += [random_history(rng, rng.randint(10, 24), genc) for _ in range(6000)]
-        res.notes["gen"]["random_long_histories"] = 6000
+        hists += [random_history(rng, rng.randint(10, 24), mcc) for _ in range(6000)]
+        res.notes["gen"]["random_long"] = {"histories": 6000, "calls_each": "10-24", "seed": seed}
     cases = [{"id": i + 1, "ops": h} for i, h in enumerate(hists)]
     # ---- RUN
     flavour = "hooks" if quick else "asan"
@@ -431,12 +446,13 @@ def run(res, tier, seed):
                              "residue_hook": any("residue" in ev for ev in events[:50])}
     nt = {vlib.canon_hash(ops_of(ex)) for ex in execs if nontrivial(ex)}
     res.cov["distinct_nontrivial"] = len(nt)
-    res.cov["rule"] = ("one shortest call history per view (abstract state, implementation-shaped state, previous transformation, "
-                       "last call) of the TLC state graph of MC_Transformer (MaxHist=%d, MaxH=%d, %d stylesheets x %d sources x values %s "
-                       "x 1 extension function)%s, each replayed on one XalanTransformer; non-trivial = a failing call is followed by a "
-                       "succeeding Transform on the same transformer, or a parameter / function change lies between two transforms; "
-                       "distinct by hash of the call history" % (genc["hist"], genc["maxh"], len(ALL_SS), len(ALL_SRC), "/".join(genc["vals"]),
-                                                                 "" if quick else " plus seeded random histories of 10-24 calls"))
+    res.cov["rule"] = ("one shortest call history per view (abstract state, implementation-shaped bookkeeping, previous and "
+                       "last-but-one transformation, last call) of the TLC state graphs of MC_Transformer for the alphabets %s over "
+                       "%d stylesheets x %d sources x parameter values %s x 1 extension function%s, each replayed on one XalanTransformer; "
+                       "non-trivial = a failing call is followed by a succeeding Transform on the same transformer, or a parameter / "
+                       "function change lies between two transforms; distinct by hash of the call history"
+                       % (", ".join("%s(MaxHist=%d,MaxH=%d)" % (n, c["hist"], c["maxh"]) for n, c in gens), len(ALL_SS), len(ALL_SRC),
+                          "/".join(mcc["vals"]), "" if quick else " plus seeded random histories of 10-24 calls"))
     for ex in [e for e in execs if nontrivial(e)][:: max(1, len(nt) // 3)][:3]:
         res.sample([dict((a, (b[:80] + "...") if isinstance(b, str) and len(b) > 80 else b) for a, b in ev.items()) for ev in ex])
     res.assumptions += [
